@@ -100,3 +100,16 @@ func (r *Router) VerifHelloState(peer netip.Addr) (active, done bool) {
 	}
 	return true, st.done.Load()
 }
+
+// VerifAgeConnStates lets the given number of seconds pass for every connection state entry
+// (first seen / last seen move into the past) and then runs the periodic cleaner once, as
+// cleanConnStatesWorker would.
+func (r *Router) VerifAgeConnStates(seconds int64) {
+	r.connStatesLock.Lock()
+	for _, e := range r.connStates {
+		e.firstSeen -= seconds
+		e.lastSeen.Add(-seconds)
+	}
+	r.connStatesLock.Unlock()
+	r.cleanConnStates()
+}
